@@ -15,8 +15,8 @@ CHECKS = {
             "Every run renders thousands of models (all item kinds, member forms, types to depth 4, all value / annotation forms, near-keyword names) under independent layouts and compares the returned tree field by field with a tree built from the model alone." + EXPL,
             T_ASSUME + "Only constructs the model can express; duplicate annotation keys are not generated.",
             "DESIGN.md section 4, C02"),
-    "C03": ("bounded-exhaustive token-sequence substitution into 10 syntactic slots + exhaustive keyword/reserved-word name slots + random token mutation; differential oracle: reference lexer + Earley recogniser verdict vs parse-stage result",
-            "All token-kind sequences up to length 2 (thorough 3) in ten slots, all ~58 keywords / reserved words and near-keywords in 14 identifier positions, plus tens of thousands of random mutants: the reference verdict must equal 'clean parse', errors must survive validation, the first error must sit on the first non-viable token, and no keyword may be stored as a name." + EXPL,
+    "C03": ("bounded-exhaustive token-sequence substitution into 17 syntactic slots + exhaustive keyword/reserved-word name slots + random token mutation; differential oracle: reference lexer + Earley recogniser verdict vs parse-stage result",
+            "All token-kind sequences up to length 2 (thorough 3) in seventeen slots, all ~58 keywords / reserved words and near-keywords in 14 identifier positions, random sentences derived from the transcribed grammar, documents with 1-300 validation diagnostics in front of a recovered error, plus tens of thousands of random mutants: the reference verdict must equal 'clean parse', errors must survive validation, the first error must sit on the first non-viable token, and no keyword may be stored as a name." + EXPL,
             T_ASSUME + "Overflowing transact codes and unknown numeric characters are excluded from the verdict comparison (counted).",
             "DESIGN.md section 4, C03"),
     "C04": ("generated documents with a token table: exact expected range of every node from the renderer, offset->(line, grapheme column) oracle, structural nesting checks; reference token table for syntax diagnostics on mutated inputs",
@@ -24,7 +24,7 @@ CHECKS = {
             T_ASSUME + "unicode-segmentation is trusted for grapheme clusters (cross-checked by a char count on simple lines). Lone-CR layouts are excluded from exact comparison.",
             "DESIGN.md section 4, C04"),
     "C05": ("generated multi-file projects over an adversarial name space; differential oracle: reference resolver (AIDL scoping rules from the statement) vs Type.kind of every node + 'unknown type' Errors",
-            "Thousands of projects per run with near-miss names, partial qualification, built-in imports and references nested to depth 4; the kind of every type node and the exact multiset of 'unknown type' errors are compared with a reference resolver written from the statement." + EXPL,
+            "Thousands of projects per run with near-miss names, partial qualification, built-in imports and references nested to depth 4 (enumerated cases to depth 64), final contents reached through short edit histories, one file in five projects carrying a recovered syntax error; the kind of every type node and the exact multiset of 'unknown type' errors are compared with a reference resolver written from the statement." + EXPL,
             T_ASSUME + "Don't-care corners are discarded and counted (see evidence.coverage.discards).",
             "DESIGN.md section 4, C05"),
     "C06": ("generated projects with rich import / forward-declaration lists; reference classifier computes the exact expected diagnostic multiset on every statement",
@@ -48,10 +48,10 @@ CHECKS = {
             T_ASSUME,
             "DESIGN.md section 4, C10"),
     "C11": ("generated projects x 8 fresh parsers with permuted insertion orders (one on another thread, validate twice); oracle: all results equal + ascending start offsets",
-            "Every generated project is validated by eight independent parsers (fresh hash seeds) with different insertion orders; any difference between two results, or a diagnostic list not ascending by position, is a violation. Inputs are biased to many diagnostics on one line, duplicate keys and ambiguous imports." + EXPL,
+            "Every generated project is validated by eight independent parsers (fresh hash seeds) with different insertion orders, and sampled cases by a re-executed copy of the harness in another process; any difference between two results, or a diagnostic list not ascending by position, is a violation. Inputs are biased to many diagnostics on one line, duplicate keys and ambiguous imports." + EXPL,
             T_ASSUME + "Hash seeds can only be resampled, not chosen: a dependence that shows with probability p per run is missed with (1-p)^7.",
             "DESIGN.md section 4, C11"),
-    "C12": ("model-based stateful testing: exhaustive operation sequences over a 21-op alphabet from the empty parser and from all 125 abstract states + random histories up to 40 ops; oracle: fresh parser built from the model map after every step",
+    "C12": ("model-based stateful testing: exhaustive operation sequences over a 27-op alphabet from the empty parser and from all 343 abstract states + random histories up to 40 ops; oracle: fresh parser (new thread) built from the model map after every step",
             "After every single operation of every history the long-lived parser's validate() is compared with a fresh parser holding the surviving (id, content) pairs; failed file loads must change nothing and report an error." + EXPL,
             T_ASSUME + "Only the public API; no fault injection below std::fs.",
             "DESIGN.md section 4, C12"),
@@ -67,7 +67,7 @@ CHECKS = {
             "For every tree the complete visiting sequence and the result of every predicate of the three families named in the property are compared with an independently written reference traversal." + EXPL,
             T_ASSUME,
             "DESIGN.md section 4, C15"),
-    "C16": ("generated documents x every (line, column) position x 3 filter levels; oracle: first symbol of the reference traversal whose name range contains the position",
+    "C16": ("generated documents x every (line, column) position x 3 filter levels + the source position of every name (offset -> line/column oracle); oracle: first symbol of the reference traversal whose name range contains the position",
             "Every character position (and positions past line ends / past the last line) of every generated document is looked up at all three levels and compared by identity with the reference answer." + EXPL,
             T_ASSUME,
             "DESIGN.md section 4, C16"),
